@@ -260,6 +260,26 @@ def k5_run(carve):
                         if any(norm(x) != norm(want) for x in lit_res):
                             bad.append(f"[{be}] lit({v!r}).cast({tgt}) = {lit_res[0]!r}, the column cast of the same value gives {want!r}")
                             break
+    # nested casts in ONE expression give the value of the same casts applied in separate steps (no cast may be skipped or merged)
+    chains = [("Int64", [pdt.Float64(), pdt.String()]), ("Date", [pdt.Datetime(), pdt.String()]), ("Float64", [pdt.Int64(), pdt.String()]), ("String", [pdt.Int64(), pdt.Float64()]), ("Bool", [pdt.Int64(), pdt.String()]),
+              ("Int64", [pdt.Float64(), pdt.Int64()]), ("Datetime", [pdt.Date(), pdt.Datetime()]), ("Float64", [pdt.Int64(), pdt.Float64()]), ("Int64", [pdt.Int32(), pdt.Float64()]), ("Datetime", [pdt.Date(), pdt.String()])]
+    with warnings.catch_warnings():
+        warnings.simplefilter("ignore")
+        for be, t in (("polars", pdt.Table(df, name="t")), ("sqlite", pdt.Table("t", pdt.SqlAlchemy(eng)))):
+            for sname, (t1, t2) in chains:
+                n += 1
+                try:
+                    one = (t >> pdt.mutate(r=t[sname].cast(t1).cast(t2)) >> pdt.export(pdt.Polars()))["r"].to_list()
+                    two = (t >> pdt.mutate(r1=t[sname].cast(t1)) >> pdt.mutate(r=pdt.C.r1.cast(t2)) >> pdt.export(pdt.Polars()))["r"].to_list()
+                    if be == "polars":
+                        two = (t >> pdt.mutate(r1=t[sname].cast(t1)) >> pdt.collect() >> pdt.mutate(r=pdt.C.r1.cast(t2)) >> pdt.export(pdt.Polars()))["r"].to_list()
+                except (pdt.errors.NotSupportedError, pdt.errors.DataTypeError):
+                    continue
+                except Exception as ex:  # noqa: BLE001
+                    bad.append(f"[{be}] {sname}.cast({t1}).cast({t2}) fails: {type(ex).__name__}: {str(ex)[:120]}")
+                    continue
+                if [norm(x) for x in one] != [norm(x) for x in two]:
+                    bad.append(f"[{be}] {sname}.cast({t1}).cast({t2}) in one expression gives {one}, the two casts applied one after the other give {two}")
     # the two backends agree on the value wherever the result is not a text rendering of a float / bool / datetime
     for (sname, tname), d in by_backend.items():
         if len(d) == 2 and not (tname.startswith("String") and sname in ("Float64", "Bool", "Datetime", "Date")):
@@ -280,7 +300,7 @@ def obligations(tier):
                    functions=cfns + [fi(H.sql_backend.SqlImpl.sqa_type)], bounded=TU.BOUND_TEXT, carveouts={"nested_list": "List of List targets"}),
     ]
     obs.append(Obligation("C17/K5/literal_operands", "K5", "casts of literal (const) operands agree with casts of columns, natively on both backends", k5_run,
-                          functions=cfns + [fi(H.sqlite_backend.SqliteImpl.compile_cast), fi(H.polars_backend.compile_col_expr), fi(H.sql_backend.SqlImpl.compile_lit)], bounded="6 source types x 7 targets x 3 sample values x 2 backends (native execution)"))
+                          functions=cfns + [fi(H.sqlite_backend.SqliteImpl.compile_cast), fi(H.polars_backend.compile_col_expr), fi(H.sql_backend.SqlImpl.compile_lit)], bounded="6 source types x 7 targets x 3 sample values x 2 backends, plus 10 nested cast chains (native execution)"))
     targets = [Int64(), H.pdt.Int32(), Float64(), Float32(), String(), Date(), Datetime(), Enum("a", "b")]
     for s in K4_SOURCES:
         for t in targets:
